@@ -9,7 +9,11 @@ Oracles    : implementation only, judged by an independent reader (json / fastav
                         value classes): rejected -> pointer, metadata, snapshot list, reachable files and table
                         content unchanged; accepted -> full scan and filtered scans on every column return
                         exactly the supplied rows (up to the declared type's representation), never raise
-               cells    every column type x every value class, one cell at a time
+               cells    every column type x every value class (incl. LONG strings / bytes sharing long prefixes), one cell at a time
+               probes   after every accepted append, filters AT THE EXTREMES of the file it wrote (==, >=, in [max]; ==, <= min;
+                        > min, < max) on every column, one also through iter_records -- the literals bounds are consulted against
+               bounded  every history runs in a worker process (deadline, address-space limit, circuit breaker); in-process
+                        library calls of the correspondence run under SIGALRM deadlines: a looping library is a VIOLATION
                spelling type SPELLINGS ({"type": t}, +doc, nested, upper case, [t], {}) in the table schema or in the
                         argument x the values plain pyarrow silently alters, fresh and reused handles
                prebuilt pre-built parquet files with divergent footers / other formats through append_files
@@ -48,8 +52,8 @@ from harness.lib.c11_values import (POOL, TYPES, dec, dec_record, enc, enc_recor
 from harness.lib.values import val_to_coq
 
 LEVEL = "proof"
-THEOREMS = ["C11_accept_scans", "C11_history_scans", "C11_accept_bounds", "C11_history_filter", "C11_reject_no_trace",
-            "C11_exact_partial", "C11_fits_representable"]
+THEOREMS = ["C11_accept_scans", "C11_history_scans", "C11_accept_bounds", "C11_history_filter", "C11_history_bounds_exact",
+            "C11_history_bounds_true", "C11_reject_no_trace", "C11_exact_partial", "C11_fits_representable"]
 REQ = ["DS.Model.Value", "DS.Gen.GenPrune", "DS.Model.Prune", "DS.Gen.GenSchema", "DS.Model.Schema", "DS.Model.SchemaEval"]
 
 MANIFEST_ENTRY = {
@@ -58,7 +62,9 @@ MANIFEST_ENTRY = {
                   "caches, any record batches, commit failures) of any length: accepted schema arguments have the table's "
                   "Arrow schema, field ids and validation behaviour (C11_accept_scans, C11_accept_bounds); every data file "
                   "of every snapshot carries the table's Arrow schema so full scans never raise, and pruned filtered scans "
-                  "equal unpruned ones (C11_history_scans, C11_history_filter, composing C13); a rejected append leaves "
+                  "equal unpruned ones (C11_history_scans, C11_history_filter, composing C13); every stored bound is exactly the "
+                  "minimum / maximum of its column, under the table's field id, and encloses every ordinary value "
+                  "(C11_history_bounds_exact, C11_history_bounds_true); a rejected append leaves "
                   "schema, snapshot list, reachable files and stored data files unchanged (C11_reject_no_trace); accepted "
                   "rows are stored as canon(type, value) with every value representable (C11_exact_partial, under "
                   "conv_sound). Model pieces tied to the code by differential execution; implementation-only end-to-end "
@@ -296,7 +302,7 @@ def make_variant(rng, fields: List[Dict[str, Any]], name: str) -> Optional[Tuple
 
 
 def gen_records(rng, fields: List[Dict[str, Any]], p_bad: float) -> List[Dict[str, Any]]:
-    n = rng.choice([0, 1, 1, 2, 3])
+    n = rng.choice([0, 1, 1, 2, 3, 3, 9])
     recs = []
     for _ in range(n):
         r: Dict[str, Any] = {}
@@ -329,18 +335,18 @@ def gen_case(rng, nsteps: int, p_bad: float = 0.12) -> Dict[str, Any]:
         steps.append({"handle": rng.choice(["A", "A", "B", "fresh"]), "variant": vname, "arg": arg, "sid": sid,
                       "records": gen_records(rng, arg if arg is not None else fields, p_bad),
                       "commit_fails": rng.random() < 0.06})
-    return {"fields": fields, "steps": steps}
+    return {"fields": fields, "steps": steps, "seed": rng.getrandbits(30)}
 
 
 def case_json(case: Dict[str, Any]) -> Dict[str, Any]:
-    return {"fields": case["fields"],
+    return {"fields": case["fields"], "seed": case.get("seed", 0),
             "steps": [{"handle": s["handle"], "variant": s["variant"], "arg": s["arg"], "sid": s["sid"],
                        "commit_fails": bool(s.get("commit_fails")),
                        "records": [enc_record(r) for r in s["records"]]} for s in case["steps"]]}
 
 
 def case_unjson(j: Dict[str, Any]) -> Dict[str, Any]:
-    return {"fields": j["fields"],
+    return {"fields": j["fields"], "seed": j.get("seed", 0),
             "steps": [{"handle": s["handle"], "variant": s["variant"], "arg": s["arg"], "sid": s["sid"],
                        "commit_fails": bool(s.get("commit_fails")),
                        "records": [dec_record(r) for r in s["records"]]} for s in j["steps"]]}
@@ -359,6 +365,12 @@ def _eval_filter(rows: List[Dict[str, Any]], col: str, op: str, lit: Any) -> Lis
             ok = v != lit
         elif op == "<":
             ok = v < lit
+        elif op == "<=":
+            ok = v <= lit
+        elif op == ">":
+            ok = v > lit
+        elif op == "in":
+            ok = any(v == x for x in lit)
         else:
             ok = v >= lit
         if ok:
@@ -374,7 +386,7 @@ def _same_rows(a: List[Dict[str, Any]], b: List[Dict[str, Any]]) -> bool:
     return sorted(map(_rowkey, a)) == sorted(map(_rowkey, b))
 
 
-def run_case(case: Dict[str, Any], root: str, rng=None, filters_per_col: int = 2) -> Dict[str, Any]:
+def run_case(case: Dict[str, Any], root: str, filters_per_col: int = 2) -> Dict[str, Any]:
     """Execute the history on the real library.  Returns {"violations": [(key, what)], "trace": [...]}.
 
     Judgement (independent of any model):
@@ -385,13 +397,14 @@ def run_case(case: Dict[str, Any], root: str, rng=None, filters_per_col: int = 2
     from datashard import create_table, load_table
     from datashard.data_structures import Schema
     import random
-    rng = rng or random.Random(0)
+    rng = random.Random(case.get("seed", 0))
     shutil.rmtree(root, ignore_errors=True)
     table = create_table(root, Schema(schema_id=1, fields=copy.deepcopy(case["fields"])))
     handles: Dict[str, Any] = {"A": table}
     violations: List[Tuple[str, str]] = []
     trace: List[Dict[str, Any]] = []
     supplied: List[Tuple[Dict[str, str], Dict[str, Any]]] = []   # (types by column, record) of accepted rows
+    types_now = {f["name"]: declared_type(f["type"]) for f in case["fields"]}
     for si, step in enumerate(case["steps"]):
         h = step["handle"]
         if h == "fresh":
@@ -455,23 +468,43 @@ def run_case(case: Dict[str, Any], root: str, rng=None, filters_per_col: int = 2
                     present = [r[col] for r in got if r.get(col) is not None and not (isinstance(r[col], float) and r[col] != r[col])]
                     if not present:
                         continue
-                    for _ in range(filters_per_col):
-                        lit = rng.choice(present)
-                        op = rng.choice(OPS)
+                    probes = [(rng.choice(OPS), rng.choice(present)) for _ in range(filters_per_col)]
+                    # directed probes at the EXTREMES of the file this step wrote: the stored bounds of a file
+                    # are only ever consulted against literals near its minimum and maximum, so those are asked
+                    # for explicitly, with every operator that prunes on that side
+                    if ev["outcome"] == "accepted" and after["files"]:
+                        mine = [r.get(col) for r in after["files"][-1]["rows"]]
+                        mine = [v for v in mine if v is not None and not (isinstance(v, float) and v != v)]
+                        try:
+                            mx, mn = (max(mine), min(mine)) if mine else (None, None)
+                        except TypeError:
+                            mx = mn = None
+                        if mx is not None:
+                            probes += [("==", mx), (">=", mx), ("in", [mx]), ("==", mn), ("<=", mn)]
+                            if mx != mn:
+                                probes += [(">", mn), ("<", mx)]
+                    coltype = types_now.get(col, "?")
+                    for pi, (op, lit) in enumerate(probes):
                         try:
                             want = _eval_filter(got, col, op, lit)
                         except TypeError:
                             continue
                         try:
                             res = fresh.scan(filter={col: (op, lit)})
+                            api = "scan"
+                            if pi == filters_per_col:            # the first directed probe also through the streaming API
+                                res2 = list(fresh.iter_records(filter={col: (op, lit)}))
+                                if _same_rows(res, want) and not _same_rows(res2, want):
+                                    res, api = res2, "iter_records"
                         except Exception as e:       # noqa: BLE001
-                            violations.append((f"filter-raises:{_last_accepted_variant(trace, ev)}", f"step {si}: scan(filter={col} {op} {lit!r}) raises {type(e).__name__}: {str(e)[:160]}"))
+                            violations.append((f"filter-raises:{_last_accepted_variant(trace, ev)}", f"step {si}: scan(filter={col} {op} {lit!r:.80}) raises {type(e).__name__}: {str(e)[:160]}"))
                             continue
                         ev.setdefault("filters", 0)
                         ev["filters"] += 1
                         if not _same_rows(res, want):
-                            violations.append((f"mis-filter:{_last_accepted_variant(trace, ev)}",
-                                               f"step {si}: scan(filter={col} {op} {lit!r}) returns {len(res)} rows {res!r:.200}, the full scan holds {len(want)} matching rows {want!r:.200}"))
+                            violations.append((f"mis-filter:{coltype}:{_last_accepted_variant(trace, ev)}",
+                                               f"step {si}: {api}(filter={col} {op} {lit!r:.120}) returns {len(res)} rows {res!r:.200}, the full scan holds {len(want)} matching rows {want!r:.200}"))
+                            break
                     if isinstance(present[0], bytes):
                         # the same question asked with a str literal (pyarrow compares it bytewise with the binary
                         # column): every present row is >= the smallest one
@@ -506,7 +539,7 @@ def _last_accepted_variant(trace: List[Dict[str, Any]], ev: Dict[str, Any]) -> s
     for e in acc:
         if e["variant"] not in BENIGN:
             return e["variant"]
-    return acc[0]["variant"] if acc else "none"
+    return "same-schema" if acc else "none"
 
 
 def _judge_rows(supplied: List[Tuple[Dict[str, str], Dict[str, Any]]], got: List[Dict[str, Any]]) -> Optional[Tuple[str, str]]:
@@ -535,19 +568,108 @@ def _judge_rows(supplied: List[Tuple[Dict[str, str], Dict[str, Any]]], got: List
     return None
 
 
+# ---------------------------------------------------------------------------------- bounded execution
+_WORKER = None
+CASE_TIMEOUT = float(os.environ.get("C11_CASE_TIMEOUT", "20"))
+HANG_BUDGET = 6
+_BOUNDED = {"bad": 0, "skipped": 0}
+
+
+def bounded_case(case: Dict[str, Any], root: str, filters_per_col: int = 2, timeout: Optional[float] = None, worker: Any = None) -> Dict[str, Any]:
+    """run_case in the worker process (address-space limit, deadline).  A library that loops, blocks,
+    exhausts memory or kills the process yields a VIOLATION for this case instead of a stuck check."""
+    global _WORKER
+    from harness.lib.c11_worker import Worker
+    if os.environ.get("C11_INPROCESS"):
+        return run_case(case, root, filters_per_col)
+    if worker is None:
+        if _WORKER is None:
+            _WORKER = Worker()
+        worker = _WORKER
+    # circuit breaker: the first few hangs get the full deadline, later ones a short one, and after HANG_BUDGET
+    # of them the remaining cases are not run at all (the hang is reported already; the check must end)
+    if _BOUNDED["bad"] >= HANG_BUDGET:
+        _BOUNDED["skipped"] += 1
+        return {"violations": [], "trace": [], "bounded": "skipped"}
+    limit = timeout or (CASE_TIMEOUT if _BOUNDED["bad"] < 2 else 5.0)
+    status, res = worker.call("run_case", (case, root, filters_per_col), limit)
+    if status == "ok":
+        return res
+    _BOUNDED["bad"] += 1
+    if status == "timeout":
+        what = f"the library did not finish this history within {limit:.0f}s (an append or a scan loops or blocks)"
+        key = "hang:history"
+    elif status == "died":
+        what = f"the process running this history died (return code {res}; address space limited to {os.environ.get('C11_WORKER_MEM', '8 GiB')})"
+        key = "crash:history"
+    else:
+        what = f"running the history failed outside append/scan: {str(res)[:600]}"
+        key = "error:history"
+    return {"violations": [(key, what)], "trace": [], "bounded": status}
+
+
+_WORKERS: List[Any] = []
+PARALLEL = int(os.environ.get("C11_WORKERS", "4"))
+
+
+def bounded_many(scratch: str, jobs: List[Tuple[Dict[str, Any], int]]) -> List[Dict[str, Any]]:
+    """Independent cases [(case, filters_per_col)] on a small pool of worker processes; results in job order."""
+    import threading
+    from harness.lib.c11_worker import Worker
+    if os.environ.get("C11_INPROCESS") or PARALLEL <= 1:
+        return [bounded_case(c, os.path.join(scratch, "par0"), f) for c, f in jobs]
+    while len(_WORKERS) < PARALLEL:
+        _WORKERS.append(Worker())
+    results: List[Any] = [None] * len(jobs)
+    it = iter(range(len(jobs)))
+    lock = threading.Lock()
+
+    def loop(wi: int) -> None:
+        while True:
+            with lock:
+                i = next(it, None)
+            if i is None:
+                return
+            case, fpc = jobs[i]
+            try:
+                results[i] = bounded_case(case, os.path.join(scratch, f"par{wi}"), fpc, worker=_WORKERS[wi])
+            except Exception as e:                   # noqa: BLE001 - never lose a case silently
+                results[i] = {"violations": [("error:history", f"harness failure running the case: {e!r}")], "trace": []}
+
+    threads = [threading.Thread(target=loop, args=(wi,)) for wi in range(PARALLEL)]
+    for t in threads:
+        t.start()
+    for t in threads:
+        t.join()
+    return results
+
+
+def guarded(ctx, what: str, payload: Any, fn, limit: float = 30.0) -> Tuple[bool, Any]:
+    """An in-process library call under a deadline: (True, result), or (False, None) after reporting the hang."""
+    from harness.lib.c11_worker import LibraryHang, time_limit
+    try:
+        with time_limit(limit, what):
+            return True, fn()
+    except LibraryHang:
+        ctx.violation(f"hang:{what.split(':')[0]}", f"the library did not return within {limit:.0f}s: {what}", payload)
+        return False, None
+
+
 # ---------------------------------------------------------------------------------- shrinking
 def shrink_case(case: Dict[str, Any], root: str, key: str) -> Dict[str, Any]:
     """Greedy delta debugging: drop steps, then records, then record keys, keeping the same violation key."""
+    slow = key.split(":")[0] in ("hang", "crash", "error")
+
     def fails(c: Dict[str, Any]) -> bool:
         try:
-            res = run_case(c, root)
+            res = bounded_case(c, root, timeout=8.0 if slow else None)
         except Exception:                            # noqa: BLE001
             return False
         return any(k == key for k, _ in res["violations"])
 
     cur = copy.deepcopy(case)
     changed = True
-    budget = 60
+    budget = 10 if slow else 60                      # every attempt on a hanging case costs its deadline
     while changed and budget > 0:
         changed = False
         for i in range(len(cur["steps"])):
@@ -578,10 +700,10 @@ def oracle_e2e(ctx) -> List[Tuple[Dict[str, Any], Dict[str, Any]]]:
     runs = []
     stats = {"accepted": 0, "rejected": 0, "steps": 0, "filters": 0, "by_variant": {}}
     reported = set()
-    for ci in range(ncases):
-        case = gen_case(ctx.rng, ctx.rng.choice([3, 4, 5, 6]))
+    cases = [gen_case(ctx.rng, ctx.rng.choice([3, 4, 5, 6])) for _ in range(ncases)]
+    results = bounded_many(ctx.scratch, [(c, 2) for c in cases])
+    for ci, (case, res) in enumerate(zip(cases, results)):
         root = os.path.join(ctx.scratch, f"e2e{ci}")
-        res = run_case(case, root, rng=ctx.rng)
         runs.append((case, res))
         for ev in res["trace"]:
             stats["steps"] += 1
@@ -595,7 +717,7 @@ def oracle_e2e(ctx) -> List[Tuple[Dict[str, Any], Dict[str, Any]]]:
                 continue
             reported.add(key)
             small = shrink_case(case, os.path.join(ctx.scratch, "shrink"), key)
-            again = run_case(small, os.path.join(ctx.scratch, "shrink"))
+            again = bounded_case(small, os.path.join(ctx.scratch, "shrink"))
             what2 = next((w for k, w in again["violations"] if k == key), what)
             ctx.violation(key, what2, {"kind": "history", "case": case_json(small)})
         shutil.rmtree(root, ignore_errors=True)
@@ -611,21 +733,25 @@ def oracle_cells(ctx) -> None:
     seen = set()
     outcomes = {"accepted": 0, "rejected": 0}
     types = TYPES
+    jobs, meta = [], []
     for ty in types:
         for vi, v in enumerate(POOL):
             for required in ((False, True) if v is None or vi % 7 == 0 else (False,)):
                 case = {"fields": [{"id": 1, "name": "a", "type": ty, "required": required}],
                         "steps": [{"handle": "A", "variant": "omitted", "arg": None, "sid": 1, "records": [{"a": v}]}]}
-                res = run_case(case, os.path.join(ctx.scratch, "cell"), rng=ctx.rng, filters_per_col=1)
-                n += 1
-                ctx.count(1, ("cell", ty, repr(v), required))
-                outcomes[res["trace"][0]["outcome"]] += 1
-                for key, what in res["violations"]:
-                    k2 = key if key.startswith("rows-differ") else f"{key}:{ty}:{type(v).__name__}"
-                    if k2 in seen:
-                        continue
-                    seen.add(k2)
-                    ctx.violation(k2, f"column type {ty}, value {v!r}: {what}", {"kind": "history", "case": case_json(case)})
+                jobs.append((case, 1))
+                meta.append((ty, v, required))
+    for (case, _), (ty, v, required), res in zip(jobs, meta, bounded_many(ctx.scratch, jobs)):
+        n += 1
+        ctx.count(1, ("cell", ty, repr(v), required))
+        if res["trace"]:
+            outcomes[res["trace"][0]["outcome"]] += 1
+        for key, what in res["violations"]:
+            k2 = key if key.startswith("rows-differ") else f"{key}:{ty}:{type(v).__name__}"
+            if k2 in seen:
+                continue
+            seen.add(k2)
+            ctx.violation(k2, f"column type {ty}, value {v!r:.120}: {what}", {"kind": "history", "case": case_json(case)})
     ctx.stats["cells"] = {"cases": n, **outcomes}
 
 
@@ -651,12 +777,17 @@ def oracle_spelling(ctx) -> None:
     seen = set()
     outcomes = {"accepted": 0, "rejected": 0}
 
+    pending: List[Tuple[str, str, Dict[str, Any], Any, str]] = []
+
     def one(tag: str, shape: str, case: Dict[str, Any], v: Any, decl: str) -> None:
+        pending.append((tag, shape, case, v, decl))
+
+    def judge(tag: str, shape: str, case: Dict[str, Any], v: Any, decl: str, res: Dict[str, Any]) -> None:
         nonlocal n
-        res = run_case(case, os.path.join(ctx.scratch, "spell"), rng=ctx.rng, filters_per_col=1)
         n += 1
         ctx.count(1, ("spelling", tag, shape, decl, repr(v)))
-        outcomes[res["trace"][-1]["outcome"]] += 1
+        if res["trace"]:
+            outcomes[res["trace"][-1]["outcome"]] += 1
         for key, what in res["violations"]:
             k2 = f"spelled-{tag}:{shape}:{key}"
             if k2 in seen:
@@ -691,6 +822,8 @@ def oracle_spelling(ctx) -> None:
                 for v in [b"x", "s", 1.5]:
                     one("table", shape, {"fields": [{"id": 1, "name": "a", "type": td, "required": False}],
                                           "steps": [{"handle": "A", "variant": "omitted", "arg": None, "sid": 1, "records": [{"a": v}]}]}, v, "opaque")
+    for (tag, shape, case, v, decl), res in zip(pending, bounded_many(ctx.scratch, [(p[2], 1) for p in pending])):
+        judge(tag, shape, case, v, decl, res)
     ctx.stats["spelling"] = {"cases": n, **outcomes}
 
 
@@ -715,9 +848,8 @@ def oracle_prebuilt(ctx, only: Optional[str] = None) -> None:
     # the same rows in a format the read path does not read, and bytes that are no parquet file at all
     other_formats = {"avro_file": FileFormat.AVRO, "orc_declared": FileFormat.ORC, "garbage_parquet": FileFormat.PARQUET}
     n = 0
-    for name in list(footers) + list(other_formats):
-        if only is not None and name != only:
-            continue
+    def one(name: str) -> None:
+        nonlocal n
         footer = footers.get(name, base)
         root = os.path.join(ctx.scratch, "prebuilt")
         shutil.rmtree(root, ignore_errors=True)
@@ -758,15 +890,20 @@ def oracle_prebuilt(ctx, only: Optional[str] = None) -> None:
             diff = same_table_state(before, after)
             if diff:
                 ctx.violation(f"prebuilt-reject-trace:{name}", f"append_files raised for footer '{name}' but {diff}", payload)
-            continue
+            return
         try:
             rows = load_table(root).scan()
             rows_f = load_table(root).scan(filter={"a": (">=", 1)})
         except Exception as e:                       # noqa: BLE001
             ctx.violation(f"prebuilt-scan-raises:{name}", f"pre-built file with footer '{name}' accepted; scan raises {type(e).__name__}: {str(e)[:160]}", payload)
-            continue
+            return
         if len(rows) != 2 or len(rows_f) != 2:
             ctx.violation(f"prebuilt-rows:{name}", f"pre-built file with footer '{name}' accepted; scans return {rows!r:.200} / {rows_f!r:.200}", payload)
+
+    for name in list(footers) + list(other_formats):
+        if only is not None and name != only:
+            continue
+        guarded(ctx, f"prebuilt:{name}", {"kind": "prebuilt", "footer": name}, lambda: one(name), 60.0)
     ctx.stats["prebuilt_cases"] = n
 
 
@@ -889,7 +1026,7 @@ def corr_accept_arrow(ctx) -> None:
     acc_cases, acc_impl, acc_exprs = [], [], []
     ar_cases, ar_impl, ar_exprs = [], [], []
     tags = arrow_tags()
-    for ti in range(ntables):
+    def one_table(ti) -> None:
         fields = mk_fields(rng, rng.choice([1, 2, 3]), p_spelled=0.3)
         root = os.path.join(ctx.scratch, "acc")
         shutil.rmtree(root, ignore_errors=True)
@@ -938,6 +1075,9 @@ def corr_accept_arrow(ctx) -> None:
         ar_impl.append(impl_seq)
         ar_exprs.append(expr)
         ctx.count(1, ("arrow-seq", ti))
+    for ti in range(ntables):
+        if not guarded(ctx, f"corr-accept:{ti}", {"kind": "hang", "where": "corr-accept", "iteration": ti}, lambda: one_table(ti), 20.0)[0]:
+            break
     got = coqbuild.coq_eval(REQ, acc_exprs)
     bad = [{"variant": c[0], "table": c[1], "arg": c[2], "impl_accepts": i, "model_accepts": g}
            for c, i, g in zip(acc_cases, acc_impl, got) if i != g]
@@ -961,13 +1101,19 @@ def corr_records(ctx) -> None:
     dfm = DataFileManager.__new__(DataFileManager)
     # (1) value_fits, exhaustively over types x pool
     cases = [(t, v) for t in TYPES for v in POOL]
-    impl = [bool(DataFileManager._value_fits(t, v)) if hasattr(DataFileManager, "_value_fits") else True for t, v in cases]
+    okf, impl = guarded(ctx, "corr-value_fits", {"kind": "hang", "where": "_value_fits over types x value pool"},
+                        lambda: [bool(DataFileManager._value_fits(t, v)) if hasattr(DataFileManager, "_value_fits") else True for t, v in cases], 60.0)
+    if not okf:
+        return
     got = coqbuild.coq_eval(REQ, [f"value_fits T_{t} {pyval_to_coq(v)}" for t, v in cases])
     bad = [{"type": t, "value": enc(v), "impl": i, "model": g} for (t, v), i, g in zip(cases, impl, got) if i != g]
     # the same test through every other SPELLING of the type definition (resolved as the code resolves it)
     shapes = SHAPES if ctx.tier == "thorough" else ["dict", "upper", "list"]
     scases = [(spell(t, sh), v) for sh in shapes for t in TYPES for v in POOL]
-    simpl = [bool(DataFileManager._value_fits(td, v)) if hasattr(DataFileManager, "_value_fits") else True for td, v in scases]
+    okf, simpl = guarded(ctx, "corr-value_fits", {"kind": "hang", "where": "_value_fits over spelled types x value pool"},
+                         lambda: [bool(DataFileManager._value_fits(td, v)) if hasattr(DataFileManager, "_value_fits") else True for td, v in scases], 60.0)
+    if not okf:
+        return
     sgot = coqbuild.coq_eval(REQ, [f"value_fits T_{resolved_type(td)} {pyval_to_coq(v)}" for td, v in scases])
     bad += [{"type": td, "value": enc(v), "impl": i, "model": g} for (td, v), i, g in zip(scases, simpl, sgot) if i != g]
     ctx.correspondence("value_fits", len(cases) + len(scases), bad)
@@ -1005,7 +1151,7 @@ def corr_records(ctx) -> None:
     # (3) validate_records_strict on random batches
     n = 150 if ctx.tier == "quick" else 1500
     rcases, rimpl, rexprs = [], [], []
-    for _ in range(n):
+    def one_batch(ri) -> None:
         fields = mk_fields(rng, rng.choice([1, 2, 3]), p_spelled=0.3)
         recs = gen_records(rng, fields, 0.3)
         if recs and recs[0] and rng.random() < 0.2:
@@ -1020,6 +1166,9 @@ def corr_records(ctx) -> None:
         rimpl.append(ok)
         rexprs.append(f"forallb (validate_record {fields_coq(fields)}) [" + "; ".join(record_coq(r) for r in recs) + "]")
         ctx.count(1, ("records", repr(fields), repr(recs)))
+    for ri in range(n):
+        if not guarded(ctx, f"corr-records:{ri}", {"kind": "hang", "where": "corr-records", "iteration": ri}, lambda: one_batch(ri), 20.0)[0]:
+            break
     got4 = coqbuild.coq_eval(REQ, rexprs)
     bad = [{"fields": f, "records": [enc_record(r) for r in rs], "impl": i, "model": g}
            for (f, rs), i, g in zip(rcases, rimpl, got4) if i != g]
@@ -1147,7 +1296,7 @@ def run(ctx) -> None:
     oracle_spelling(ctx)
     oracle_prebuilt(ctx)
     runs = oracle_e2e(ctx)
-    probe_legacy(ctx)
+    guarded(ctx, "legacy-probe", {"kind": "hang", "where": "probe_legacy"}, lambda: probe_legacy(ctx), 60.0)
     # correspondence needs the model to build
     try:
         corr_accept_arrow(ctx)
@@ -1155,13 +1304,15 @@ def run(ctx) -> None:
         corr_machine(ctx, runs)
     except RuntimeError as e:
         ctx.proof_problems.append("model evaluation failed: " + str(e)[:600])
+    ctx.stats["bounded_execution"] = {"cases_hung_or_died": _BOUNDED["bad"], "cases_skipped_after_hang_budget": _BOUNDED["skipped"],
+                                      "worker_restarts": _WORKER.restarts if _WORKER else 0}
 
 
 def replay(ctx, payload) -> int:
     case = payload.get("case", {})
     if case.get("kind") == "history":
         c = case_unjson(case["case"])
-        res = run_case(c, os.path.join(ctx.scratch, "replay"))
+        res = bounded_case(c, os.path.join(ctx.scratch, "replay"))
         for ev in res["trace"]:
             print("  step", ev["step"], ev["variant"], ev["handle"], ev["outcome"], ev.get("error", ""), "scan:", ev["scan"])
         if res["violations"]:
